@@ -992,7 +992,8 @@ class C19(Prop):
                     "operation ids (as sets; IndexError <-> None); delete/chop of an addressed operation against "
                     "Model.assemble_ops/chop_op, both on Mesh.block_list after assemble and on the hex entries of the "
                     "WRITTEN blockMeshDict; round sketches/shapes at random similarity placements against the "
-                    "specification predicates of Model/C19_Spec.v.  non-trivial = a valid address on a stack with more "
+                    "specification predicates of Model/C19_Spec.v; (M) Cylinder/SemiCylinder/Frustum mirrored (also as a copy, then moved): "
+                    "core/shell against the sides that lie on the mirrored outer surface (direct oracle).  non-trivial = a valid address on a stack with more "
                     "than one operation; distinct by (kind, size, axis, index)")
         cases = []      # (cid, text, describe)
         descr = {}
@@ -1129,6 +1130,18 @@ class C19(Prop):
                     if why:
                         res.oracle_failures.append(dict(what="round", group=group, name=t["name"], placement=pl, why=why[0],
                                                         all_why=why[:5], sig=sig_round(t["name"], why[0])))
+        # (M) mirrored round shapes (direct oracle only)
+        from props import C19_mirror
+        seen_m = set()
+        for _ in range(ctx.n(40, 600)):
+            mc = C19_mirror.gen_case(ctx.rng)
+            res.evaluations += 1
+            res.count("mirrored-round:" + mc["kind"])
+            res.distinct.add("mirrored " + json.dumps(mc, sort_keys=True))
+            f = C19_mirror.check(mc)
+            if f and f["sig"] not in seen_m:
+                seen_m.add(f["sig"])
+                res.oracle_failures.append(f)
         # the canonical tables themselves go through the oracle as well (self-check of the theorems)
         for group, okpy in (("sketches", sketch_ok_py), ("lofted", lofted_ok_py), ("solids", solid_ok_py)):
             for t in canon[group]:
@@ -1227,6 +1240,17 @@ class C19(Prop):
         return rp.get("sig") or "C19:%s:%s" % (rp.get("what"), str(rp.get("why", ""))[:60])
 
     def replay(self, ctx, obj):
+        if obj.get("what") == "mirrored-round":
+            from props import C19_mirror
+            print("input:", json.dumps(obj["case"]))
+            try:
+                ob = C19_mirror.run_case(obj["case"])
+                print("implementation: core %r shell %r" % (ob["core"], ob["shell"]))
+            except Exception as e:  # noqa: BLE001
+                print("implementation raised", type(e).__name__, e)
+            f = C19_mirror.check(obj["case"])
+            print("oracle:", (f["why"], f["sig"]) if f else "ok")
+            return 0
         rp = replay_case(obj, verbose=True)
         print("oracle:", (rp or {}).get("why", "ok"))
         return 0
